@@ -38,7 +38,7 @@ REQUIRED = {"node_checks_judged": 20000, "contract_events": 3000,
             "ill_conditioned_updates": 5, "barrier_active": 20}
 MIN_NONTRIVIAL = {"quick": 50, "thorough": 400}
 PLAN = [("driven", 500, 8000), ("real", 300, 4000), ("hostile", 200, 3000),
-        ("repotests", 1, 1)]
+        ("long", 40, 400), ("repotests", 1, 1)]
 MAXOPS = {"quick": 40, "thorough": 60}
 
 
@@ -95,7 +95,17 @@ def run_driven(case):
 
 def run_real(case):
     rng = e2e.rng_of(ID, case)
-    if case["fam"] == "hostile":
+    if case["fam"] == "long":
+        # long default-option runs to convergence: late trial points agree
+        # with their predecessors to 5-6 digits
+        n = int(rng.integers(2, 4))
+        spec = gen.general(rng, n=n, con=str(rng.choice(["none", "nl"])),
+                           obj_kinds=("rosen", "quad", "sinq"),
+                           bound_patterns="none", with_callback=False,
+                           opt_allow=(), maxfev=(400, 600))
+        spec["x0"] = (np.asarray(spec["x0"]) * 3.0 + 5.0).tolist()
+        spec.pop("rtype", None)
+    elif case["fam"] == "hostile":
         spec = gen.general(rng, bound_patterns=("tiny", "narrow", "two",
                                                 "nearfixed"),
                            maxfev=(40, 150), forms=("nlc",),
@@ -129,7 +139,18 @@ def run_real(case):
         if ev["ret"] is None or mon.viols:
             continue
         want = np.asarray(ev["pb"].build_x(ev["x"]), dtype=float)
-        for e in rec.run.log[ev["log0"]:ev.get("log1", ev["log0"])]:
+        sl = rec.run.log[ev["log0"]:ev.get("log1", ev["log0"])]
+        if rec.built.fun is not None and \
+                not any(e["t"] == "obj" for e in sl):
+            from vlib.oracles import V
+            mon.viols.append(V(
+                "recorded_value_not_measured",
+                f"evaluation {ev['i']}: values were handed to the models for "
+                f"the point {want.tolist()[:4]} although the objective was "
+                f"not called in that evaluation (the values were measured "
+                f"elsewhere)", mechanism="recorded_not_measured"))
+            break
+        for e in sl:
             if e["t"] in ("obj", "con"):
                 npts += 1
                 if e["x"].shape != want.shape or \
